@@ -317,6 +317,8 @@ class Loops:
                     if s is None:
                         raise Unsupported(f"loop-modified empty literal list {n}: annotate its type")
                     fr.env[n] = it.fresh_sv("hv_" + n, s.ty)
+                elif v is _POISON:
+                    pass  # not bound at this loop head either (poisoned by an enclosing loop's havoc)
                 else:
                     raise Unsupported(f"cannot havoc local {n} = {v}")
             else:
